@@ -23,10 +23,10 @@ CHECKS = {
 CHECKS["C14"] = ("model_checking",
     "TLC model checking of the register/callback protocol (DepFit.tla), TLC-generated behaviours replayed on real DependenceFunction objects, trace validation through the spec's own FitCall operator; fit-quality records judged by TLC",
     "The dependency-order half is a protocol over a finite graph: TLC explores six dependence graphs x all declaration orders x all fit-call orders x 2-3 rounds "
-    "(mutation NoRefit must violate), emits every behaviour, and each is executed on real objects with _fit wrapped; Trace_C14 replays the recorded history through "
+    "(mutations norefit / subsetreversed must violate FittedAfterConditioners / NoPrematureFit), emits every behaviour, and each is executed on real objects with _fit wrapped; Trace_C14 replays the recorded history through "
     "DepFitOps!FitCall and compares internal fit sequence, _may_fit, |_fitted_conditioners| and freshness of the parameters (lstsq with the current conditioner "
     "parameters) after every call. Bounds/constraints/optimality are judged per executed fit (exploration-strength: sampled shapes, local optimality on a stencil).",
-    "TLC; numpy.linalg.lstsq; objective convention sum(((f-y)/sigma)^2); local (not global) optimality; tolerances stated in spec/Trace_C14.tla",
+    "TLC; numpy.linalg.lstsq; weighted objective as documented, sum(w_i r_i^2); objectives beyond the fixed-point range compared as ratios; local (not global) optimality; tolerances stated in spec/Trace_C14.tla",
     "DESIGN.md §4 C14")
 CHECKS["C04"] = ("model_checking",
     "TLC model checking of the per-ray search state machine (AndOrSearch.tla) + TLC trace validation of hook-level loop events and returned coordinates of real AndContour/OrContour runs",
@@ -106,7 +106,7 @@ CHECKS["C09"] = ("model_checking",
     "Order invariance and 'each interval gets exactly its own rows' are statements about sets of rows: the model shows the design has them for every permutation (deviation 'masks in sorted space' "
     "must violate). Ten real structures (2-D/3-D chain and fan, three slicers with option variants, MLE and WLSQ, partial fit descriptions) are fitted to data with tied, rounded conditioning values, "
     "to the row-permuted data, and re-fitted after another data set; TLC judges IntervalOwnData and KeptExactly with the SlicingOps operators, FitDataAreMaskedRows, EstimateIsStandAloneFit "
-    "(bitwise), DepFitInputsX/Y, OptionsPerDim (call sequence of Distribution.fit), PermutationSameIntervals/Estimates/Dependence, RefitSameIntervals/Estimates.",
+    "(bitwise), DepFitInputsX/Y, OptionsPerDim (call sequence of Distribution.fit), PermutationSameIntervals/Estimates/Dependence, RefitSameIntervals/Estimates, RefitDependenceFitsPairs; per-observation weight arrays travel with their rows (IntervalOwnWeights in the model, '@array' structures on the real code); a chained dependence structure (dependent declared before its conditioner).",
     "TLC; recording wrappers around IntervalSlicer.slice_, Distribution.fit, DependenceFunction.fit (masks bound to the fitted data by FitDataAreMaskedRows); MLE estimates of permuted data "
     "compared at 2e-3 (Nelder-Mead), least squares at 1e-6; known finding: PointsPerIntervalSlicer with tied conditioning values",
     "DESIGN.md §4 C09")
@@ -134,17 +134,17 @@ CHECKS["C07"] = ("model_checking",
 CHECKS["C19"] = ("model_checking",
     "TLC model checks the ownership rules over all histories of new/fit/eval on two models (Purity.tla, three deviations must violate), emits the histories; a seeded subset is replayed on models from the six predefined getters with full object-graph fingerprints after every operation, judged by TLC (Trace_C19.tla)",
     "Purity and absence of shared state are statements about histories: every history up to length 5-6 over two models is explored against the rules (shared dependence function, fit writes the "
-    "template, caching evaluation must violate). 60 (quick) / 700 (thorough) emitted histories are executed with 15 evaluation kinds; after each operation every mutable object reachable from "
+    "template, caching evaluation must violate). 60 (quick) / 700 (thorough) emitted histories are executed with 15 evaluation kinds; (incl. a repeat leg: every kind twice in a row); after each operation every mutable object reachable from "
     "every model and every caller array is fingerprinted by bit pattern: EvalIsPure, InputsUntouched, FitIsLocal, TemplateUntouched, FitWritesOnlyFittedState, Repeatable, FreshGraphsDisjoint.",
-    "TLC; the fingerprint walk (plain functions treated as immutable; TransformedModel._sample cache excluded); global numpy RNG re-seeded before each evaluation",
+    "TLC; the fingerprint walk (plain functions treated as immutable; TransformedModel._sample cache excluded); the global numpy RNG is seeded DIFFERENTLY before every evaluation whose inputs fix the result (same seed only for the Monte-Carlo entry points without random_state); caller arrays alternately row- and column-major",
     "DESIGN.md §4 C19")
 CHECKS["C16"] = ("model_checking",
-    "TLC model checks the rejection sampler's support search (SupportSearch.tla) and the random-number threading of a transformed IFORM computation (Transformed.tla); measured round trips, Jacobians, push-forward densities, samples, Monte-Carlo conditionals and transformed IFORM contours are judged by TLC (Trace_C16.tla, DKW in integer arithmetic)",
-    "Two parts of the property are state-machine statements: 'without truncating tails' (the search as coded violates NoTailTruncation for down-scaled profiles in the model = the design-level "
-    "side of the known finding; the relative-threshold design holds) and 'reproduced exactly when random_state is set' (stream model; deviation 'marginal draws from the global stream' must "
+    "TLC model checks the rejection sampler's support search (SupportSearch.tla), the life cycle of the cached sample (SampleCache.tla, histories replayed on the real class) and the random-number threading of a transformed IFORM computation (Transformed.tla); measured round trips, Jacobians, push-forward densities, samples, Monte-Carlo conditionals and transformed IFORM contours are judged by TLC (Trace_C16.tla, DKW in integer arithmetic)",
+    "Two parts of the property are state-machine statements: 'without truncating tails' (fine-lattice model of the grid search: the rule 'first grid value above the threshold' = the code before D58 and "
+    "profiles scaled below the absolute threshold = the known finding must violate NoTailTruncation; the current step-back rule and the relative-threshold design hold) and 'reproduced exactly when random_state is set' (stream model; deviation 'marginal draws from the global stream' must "
     "violate). The analytic / Monte-Carlo laws are exploration-strength: transformation pairs on a 14x14 (40x40) log lattice over (1e-3,1e2), Windmeier / non-zero EW models fitted to dataset A "
     "and seeded perturbations: RoundTrip, JacobianIsDet, PushForward, MassOne, CdfMatchesEmpirical, SamplesAreInverseImages, conditional sample/cdf/icdf of Tz given Hs against the exact law "
-    "at Hs-quantiles 0.5...0.9999, transformed IFORM points against exact cdf values within the DKW radius, Reproducible, SeedMatters.",
+    "at Hs-quantiles 0.5...0.9999 and for narrow conditionals at bulk quantiles, transformed IFORM points against exact cdf values within the DKW radius, Reproducible, SeedMatters.",
     "TLC; exact conditional law from the base model's conditional steepness distribution; central differences; Simpson rule; hook event cond_sample_support; known finding: tail truncation at extreme conditioning values",
     "DESIGN.md §4 C16")
 CHECKS["C02"] = ("model_checking",
